@@ -137,7 +137,9 @@ type vErr struct {
 
 var vRcpts18 = []string{"a@example.org", "b@sub.example.org", "bob@mail_gw.example.org", "c@xn--e1aybc.example", "d@тест.example", "юзер@example.org", "e@EXAMPLE.org"}
 var vOrig18 = []string{"alias@example.org", "list@тест.example", "Alias2@xn--e1aybc.example", "юзер2@example.org"}
-var vMsgs18 = []string{"mailbox unavailable", "multi\nline\r\ntext", "юникод text", "x", strings.Repeat("long words ", 12), "", "tab\there", "trailing space "}
+var vMsgs18 = []string{"mailbox unavailable", "multi\nline\r\ntext", "юникод text", "x", strings.Repeat("long words ", 12), "", "tab\there", "trailing space ",
+	// dotted numbers that are not status codes: an address, a version
+	"Rejected: 4.31.198.44 is listed at rbl.example.net", "Administrative prohibition (Exim 4.96.2)", "your network 5.9.12.0/24 is blocked"}
 
 func TestVerif_C18(t *testing.T) {
 	out := vOpenOut()
@@ -228,7 +230,16 @@ func TestVerif_C18(t *testing.T) {
 			}
 			stored := VerifToSMTPErr(src)
 			meta.RcptErrs[rc] = stored
-			ve = vErr{stored.Code, [3]int{stored.EnhancedCode[0], stored.EnhancedCode[1], stored.EnhancedCode[2]}, stored.Message}
+			// the status to be reported is the one the next hop gave, or the generic one of the reply's
+			// class when it gave none - whatever else its text may contain
+			expE := e
+			if e[0] == 0 { // not set: the generic status of the class; "no enhanced code" (-1) is kept as it is
+				expE = [3]int{stored.Code / 100, 0, 0}
+			}
+			if got := [3]int{stored.EnhancedCode[0], stored.EnhancedCode[1], stored.EnhancedCode[2]}; got != expE {
+				stats["stored-status-differs-from-reply"]++
+			}
+			ve = vErr{stored.Code, expE, stored.Message}
 			errsOf[rc] = ve
 			if r.chance(35) {
 				o := vOrig18[r.intn(len(vOrig18))]
